@@ -364,17 +364,33 @@ func (a *Analyzer) Analyze(fragments []text.TextFragment, pageWidth, pageHeight 
 		result.Stats.ParagraphCount = len(result.Paragraphs.Paragraphs)
 	}
 
-	// Step 6: Heading detection
+	// Step 6: Heading detection. Headings (and lists below) are classifications
+	// of the paragraphs detected above, so that every paragraph ends up in
+	// exactly one element of the unified tree.
+	var paragraphs []Paragraph
+	if result.Paragraphs != nil {
+		paragraphs = result.Paragraphs.Paragraphs
+	}
 	if a.config.DetectHeadings {
-		result.Headings = a.headingDetector.DetectFromFragments(fragments, pageWidth, pageHeight)
+		result.Headings = a.headingDetector.DetectFromParagraphs(paragraphs, pageWidth, pageHeight)
 		if result.Headings != nil {
 			result.Stats.HeadingCount = len(result.Headings.Headings)
 		}
 	}
 
-	// Step 7: List detection
+	// Step 7: List detection (a paragraph that is a heading is not a list item)
 	if a.config.DetectLists {
-		result.Lists = a.listDetector.DetectFromFragments(fragments, pageWidth, pageHeight)
+		candidates := paragraphs
+		if result.Headings != nil && len(result.Headings.Headings) > 0 {
+			candidates = make([]Paragraph, len(paragraphs))
+			copy(candidates, paragraphs)
+			for _, heading := range result.Headings.Headings {
+				if heading.Index >= 0 && heading.Index < len(candidates) {
+					candidates[heading.Index] = Paragraph{Index: heading.Index}
+				}
+			}
+		}
+		result.Lists = a.listDetector.DetectFromParagraphs(candidates, pageWidth, pageHeight)
 		if result.Lists != nil {
 			result.Stats.ListCount = len(result.Lists.Lists)
 		}
@@ -388,15 +404,16 @@ func (a *Analyzer) Analyze(fragments []text.TextFragment, pageWidth, pageHeight 
 }
 
 // buildElementTree creates a unified element tree from all detected components.
-// It merges headings, lists, and paragraphs, avoiding duplicates where elements
-// overlap, and sorts them into reading order.
+// Headings and list items are paragraphs that were classified further, so a
+// paragraph consumed by a heading or a list is not emitted a second time and
+// every paragraph appears in exactly one element.
 func (a *Analyzer) buildElementTree(result *AnalysisResult) []LayoutElement {
 	var elements []LayoutElement
 
 	// Track which paragraphs have been consumed by headings or lists
 	consumedParaIndices := make(map[int]bool)
 
-	// Add headings
+	// Add headings (Heading.Index is the index of the source paragraph)
 	if result.Headings != nil {
 		for i, heading := range result.Headings.Headings {
 			elem := LayoutElement{
@@ -408,15 +425,7 @@ func (a *Analyzer) buildElementTree(result *AnalysisResult) []LayoutElement {
 				Lines:   heading.Lines,
 			}
 			elements = append(elements, elem)
-
-			// Mark overlapping paragraphs as consumed
-			if result.Paragraphs != nil {
-				for j, para := range result.Paragraphs.Paragraphs {
-					if bboxOverlaps(heading.BBox, para.BBox) {
-						consumedParaIndices[j] = true
-					}
-				}
-			}
+			consumedParaIndices[heading.Index] = true
 		}
 	}
 
@@ -431,14 +440,8 @@ func (a *Analyzer) buildElementTree(result *AnalysisResult) []LayoutElement {
 				List:  &list,
 			}
 			elements = append(elements, elem)
-
-			// Mark overlapping paragraphs as consumed
-			if result.Paragraphs != nil {
-				for j, para := range result.Paragraphs.Paragraphs {
-					if bboxOverlaps(list.BBox, para.BBox) {
-						consumedParaIndices[j] = true
-					}
-				}
+			for _, item := range list.GetAllItems() {
+				consumedParaIndices[item.ParaIndex] = true
 			}
 		}
 	}
@@ -473,10 +476,11 @@ func (a *Analyzer) buildElementTree(result *AnalysisResult) []LayoutElement {
 	return elements
 }
 
-// getListText extracts all text from a list by concatenating item prefixes and text.
+// getListText extracts all text from a list, including nested items, by
+// concatenating item prefixes and text.
 func getListText(list *List) string {
 	var text string
-	for _, item := range list.Items {
+	for _, item := range list.GetAllItems() {
 		text += item.Prefix + " " + item.Text + "\n"
 	}
 	return text
